@@ -343,7 +343,7 @@ func (i *interpreter) symBinop(op token.Token, t types.Type, x, y value) value {
 		c, ck := i.intTerm(y)
 		if kindSigned(ck) {
 			if i.ps.decide(tf.cmp(opSLt, c, tf.bv(0, c.w))) {
-				panic("runtime error: negative shift amount")
+				panic(rtPanic("runtime error: negative shift amount"))
 			}
 		}
 		// evaluate at 64 bits so that an over-wide count saturates correctly
@@ -372,7 +372,7 @@ func (i *interpreter) symBinop(op token.Token, t types.Type, x, y value) value {
 		return mkInt(tf.bin(opMul, a, b), k)
 	case token.QUO, token.REM:
 		if i.ps.decide(tf.cmp(opEq, b, tf.bv(0, b.w))) {
-			panic("runtime error: integer divide by zero")
+			panic(rtPanic("runtime error: integer divide by zero"))
 		}
 		var o opKind
 		switch {
